@@ -34,7 +34,11 @@ PermShapes == { <<"tuple", <<UP(p[1], p[2]), UP(p[2], p[1])>> >> : p \in PermBas
 PermScalars == { S("1"), <<"float", 15, -1>>, S("2024-01-02"), B(TRUE), I(1), S("a") }
 PermInputs == { L(<<x, x>>) : x \in PermScalars } \cup { L(<<x>>) : x \in PermScalars } \cup { Dct(<< <<S("k"), x>> >>) : x \in PermScalars }
               \cup { Dct(<< <<S("f"), x>>, <<S("g"), x>>, <<S("h"), L(<<x>>)>>, <<S("i"), L(<<x>>)>> >>) : x \in PermScalars }
-Types == Unions \cup Literals
+\* TypeVar constraints: a field / shape annotated with T = TypeVar("T", A, B) means Union[A, B] in that order;
+\* a bound TypeVar means its bound
+TVarTypes == { <<"tvarc", "T", <<"union", s>> >> : s \in { q \in Seqs(2) : q[1][1] \in {"int", "str", "float", "date"} /\ q[2][1] \in {"int", "str", "bool", "list"} } }
+             \cup { <<"tvarb", "T", b>> : b \in { <<"int">>, <<"date">>, <<"list", <<"int">> >>, PT } }
+Types == Unions \cup Literals \cup TVarTypes
 AllTypes == Types \cup { Holder(t) : t \in Types } \cup PermShapes \cup { Holder(t) : t \in { q \in PermShapes : q[1] = "tuple" } }
 
 JScalars == { I(0), I(1), I(-7), <<"float", 15, -1>>, <<"float", 1, 0>>, B(TRUE), B(FALSE), None,
@@ -65,7 +69,7 @@ Dec == Unpack(T, Cx, v)
 \* ---- model theorems
 \* a null member matches only null: a non-null input never becomes None through a union
 U == IF T[1] = "dc" THEN FType(DcFields(T)[1]) ELSE T
-NullOnlyNull == (kind = "input" /\ T[1] = "union" /\ IsOk(Dec)) => (IsNone(Dec[2]) => IsNone(v))
+NullOnlyNull == (kind = "input" /\ T[1] \in {"union", "tvarc"} /\ IsOk(Dec)) => (IsNone(Dec[2]) => IsNone(v))
 \* no cross-coercion when the exact type is a scalar member AND no earlier non-scalar member accepts it
 ExactUnchanged ==
   (kind = "input" /\ T[1] = "union" /\ v[1] \in {"int", "float", "bool", "str", "none"} /\ IsOk(Dec)) =>
